@@ -1010,18 +1010,12 @@ def x_exc_class(p, f, n: ast.Raise) -> Optional[str]:
 _CASE_CHANGERS = ('lower', 'upper', 'casefold', 'title', 'capitalize', 'swapcase')
 
 
-def r7_forwarded_case(run):
-    """RFC 7239: parameter NAMES are case-insensitive and `proto` is a scheme
-    (case-insensitive); `for`/`by` may carry obfuscated identifiers (`_SEVKISEK`)
-    and `host` a host name, which the accessor must hand on as received.
-    Decided: in the Forwarded parser a case-changing string method is applied
-    only to the parameter name of a pair or to the value stored as the scheme.
-    W: `Forwarded: for=_SEVKISEK` -> req.forwarded[0].src == '_sevkisek'."""
-    p = run.project
-    f = p.func('falcon.forwarded._parse_forwarded_header')
-    run.use(f)
-    parent = enclosing_map(f.node)
-    # name variable(s): first element of a tuple unpacked from <match>.groups()
+_FWD_ATTRS = ('src', 'dest', 'host', 'scheme')
+_FWD_PARSER = 'falcon.forwarded._parse_forwarded_header'
+
+
+def _fwd_name_vars(f: Func) -> Set[str]:
+    """name variable(s): first element of a tuple unpacked from <match>.groups()"""
     name_vars = set()
     for a in walk_self(f.node):
         if isinstance(a, ast.Assign) and len(a.targets) == 1 and isinstance(a.targets[0], ast.Tuple) and a.targets[0].elts \
@@ -1030,10 +1024,121 @@ def r7_forwarded_case(run):
                 name_vars.add(a.targets[0].elts[0].id)
     if not name_vars:
         raise AnchorError('_parse_forwarded_header: no `name, value = <match>.groups()` unpacking')
+
+    # locals that only ever hold (a string-method image of) the parameter name
+    def derived(e, also=None) -> bool:
+        if isinstance(e, ast.Name):
+            return e.id in name_vars or e.id == also
+        return isinstance(e, ast.Call) and isinstance(e.func, ast.Attribute) and derived(e.func.value, also)
+
+    asg = assignments(f)
+    changed = True
+    while changed:
+        changed = False
+        for nm, vals in asg.items():
+            if nm not in name_vars and vals and all(v is not None and derived(v, nm) for v in vals) and any(derived(v) for v in vals):
+                name_vars.add(nm)
+                changed = True
+    return name_vars
+
+
+def _fwd_stores(p, f: Func):
+    """Where the parser writes the four public fields of a hop.  Two shapes are
+    read: `<elem>.<field> = ...` (one store per field) and the table-driven
+    `setattr(<elem>, <attr>, ...)` whose <attr> is looked up in a module-level
+    constant dict (folded through the module constants).
+    -> [(fields written, statement/call node, attr variable or None, {param name: field} or None)]"""
+    out = []
+    asg = assignments(f)
+    for n in walk_self(f.node):
+        if isinstance(n, ast.Assign):
+            hit = {t.attr for t in n.targets if isinstance(t, ast.Attribute) and t.attr in _FWD_ATTRS}
+            if hit:
+                out.append((hit, n, None, None))
+        elif isinstance(n, ast.Call) and isinstance(n.func, ast.Name) and n.func.id == 'setattr' and len(n.args) == 3 \
+                and p.resolve_callable(f, n.func) in ('builtins.setattr', None):
+            a = n.args[1]
+            v = p.fold(f.module, a, None, f)
+            if isinstance(v, str):
+                if v in _FWD_ATTRS:
+                    out.append(({v}, n, None, None))
+                continue
+            if not isinstance(a, ast.Name):
+                raise UnknownIdiom('_parse_forwarded_header: attribute name of %s is not a local or a constant' % short(n))
+            vals = asg.get(a.id) or []
+            if len(vals) != 1 or vals[0] is None:
+                raise UnknownIdiom('_parse_forwarded_header: %s (the attribute name of %s) does not have exactly one plain binding' % (a.id, short(n)))
+            look = vals[0]
+            tbl = None
+            if isinstance(look, ast.Subscript):
+                tbl = look.value
+            elif isinstance(look, ast.Call) and isinstance(look.func, ast.Attribute) and look.func.attr == 'get' and 1 <= len(look.args) <= 2:
+                tbl = look.func.value
+                if len(look.args) == 2 and not (isinstance(look.args[1], ast.Constant) and look.args[1].value is None):
+                    raise UnknownIdiom('_parse_forwarded_header: table lookup with a default other than None: %s' % short(look))
+            d = p.fold(f.module, tbl, None, f) if tbl is not None else UNKNOWN
+            if not (isinstance(d, dict) and d and all(isinstance(k, str) and isinstance(x, str) for k, x in d.items())):
+                raise UnknownIdiom('_parse_forwarded_header: %s = %s is not a lookup in a constant name->attribute table' % (a.id, short(look)))
+            out.append((set(d.values()) & set(_FWD_ATTRS), n, a.id, dict(d)))
+    covered = set()
+    for hit, _n, _a, _d in out:
+        covered |= hit
+    if covered != set(_FWD_ATTRS):
+        raise AnchorError('_parse_forwarded_header: stores of src/dest/host/scheme not found (%d: %s)' % (len(out), ', '.join(sorted(covered)) or 'none'))
+    return out
+
+
+def r7_forwarded_case(run):
+    """RFC 7239: parameter NAMES are case-insensitive and `proto` is a scheme
+    (case-insensitive); `for`/`by` may carry obfuscated identifiers (`_SEVKISEK`)
+    and `host` a host name, which the accessor must hand on as received.
+    Decided: in the Forwarded parser a case-changing string method is applied
+    only to the parameter name of a pair or to the value stored as the scheme
+    (either in the store itself, or to a local re-bound where the pair is known
+    to be the scheme pair).
+    W: `Forwarded: for=_SEVKISEK` -> req.forwarded[0].src == '_sevkisek'."""
+    from .c09_helpers import branch_facts, node_of
+    p = run.project
+    f = p.func(_FWD_PARSER)
+    run.use(f)
+    parent = enclosing_map(f.node)
+    name_vars = _fwd_name_vars(f)
     calls = [c for c in walk_self(f.node) if isinstance(c, ast.Call) and isinstance(c.func, ast.Attribute) and c.func.attr in _CASE_CHANGERS]
-    stores = [a for a in walk_self(f.node) if isinstance(a, ast.Assign) and any(isinstance(t, ast.Attribute) and t.attr in ('src', 'dest', 'host', 'scheme') for t in a.targets)]
-    if len(stores) < 4:
-        raise AnchorError('_parse_forwarded_header: stores of src/dest/host/scheme not found (%d)' % len(stores))
+    stores = _fwd_stores(p, f)
+    cfg = cfg_of(f, p)
+    run.use_cfg(cfg)
+
+    def eq_const(e):
+        """(local, constant) of `local == 'constant'`"""
+        if isinstance(e, ast.Compare) and len(e.ops) == 1 and isinstance(e.ops[0], ast.Eq):
+            l, r = e.left, e.comparators[0]
+            if isinstance(r, ast.Name) and isinstance(l, ast.Constant):
+                l, r = r, l
+            if isinstance(l, ast.Name) and isinstance(r, ast.Constant) and isinstance(r.value, str):
+                return (l.id, r.value)
+        return None
+
+    # (local, constant) facts under which the pair at hand is the scheme pair
+    scheme_facts: Set[tuple] = set()
+    for hit, n, attr_var, table in stores:
+        if attr_var is not None:
+            scheme_facts.add((attr_var, 'scheme'))
+            for k, v in table.items():
+                if v == 'scheme':
+                    scheme_facts |= {(nv, k) for nv in name_vars}
+        elif hit == {'scheme'}:
+            for test, truth in branch_facts(cfg, node_of(cfg, n)):
+                for x in walk_self(test):
+                    ec = eq_const(x)
+                    if ec is not None and ec[0] in name_vars and implied(test, truth, lambda e, x=x: e is x) is True:
+                        scheme_facts.add(ec)
+
+    def scheme_only(nid) -> bool:
+        for test, truth in branch_facts(cfg, nid):
+            if implied(test, truth, lambda e: eq_const(e) in scheme_facts) is True:
+                return True
+        return False
+
     n_ok = 0
     for c in calls:
         recv = c.func.value
@@ -1045,6 +1150,18 @@ def r7_forwarded_case(run):
             ok = True
         elif isinstance(st, ast.Assign) and all(isinstance(t, ast.Attribute) and t.attr == 'scheme' for t in st.targets):
             ok = True
+        elif isinstance(st, ast.Assign) and all(isinstance(t, ast.Name) for t in st.targets) and scheme_only(node_of(cfg, c)):
+            ok = True  # `value = value.lower()` where the pair is known to be the scheme pair
+        else:
+            # `<folded> if <scheme pair> else <verbatim>`
+            child = c
+            for anc in ancestors_of(c, parent):
+                if isinstance(anc, ast.IfExp) and child is not anc.test \
+                        and implied(anc.test, child is anc.body, lambda e: eq_const(e) in scheme_facts) is True:
+                    ok = True
+                if isinstance(anc, ast.stmt):
+                    break
+                child = anc
         n_ok += ok
         run.check(ok, 'a case-changing method in the Forwarded parser applies to a parameter name or to the scheme only '
                       '(for=/by=/host= values are handed on verbatim)', f, st,
@@ -1132,6 +1249,346 @@ def r9_optional_accessors_guarded(run):
                'falcon/request.py', 'optional accessors')
 
 
+# ---------------------------------------------------------------------------
+# R10 entity-tag reader: the wildcard is the WHOLE header value
+# ---------------------------------------------------------------------------
+
+_STR_PROBES = ('startswith', 'endswith', 'count', 'find', 'rfind', 'index', 'rindex')
+_COMMA_CUTTERS = ('split', 'rsplit', 'partition', 'rpartition')
+
+
+def r10_etag_wildcard(run):
+    """RFC 9110 13.1.1/13.1.2: If-Match / If-None-Match = "*" / #entity-tag.
+    The wildcard is the whole field value; inside a quoted opaque-tag both ','
+    and '*' are ordinary characters (etagc), so `"a,*,b"` is ONE strong tag.
+    Decided on `_parse_etags`:
+     (a) every place that produces the wildcard constant (a return value, an
+         element appended to the answer, ...) is dominated by an equality test
+         of the whole -- at most stripped -- parameter with '*';
+     (b) the header text is never cut at commas (`split(',')`, `partition`,
+         `re.split`) with the pieces put to use: the only tokeniser that finds
+         list members is the quote-aware entity-tag pattern R4 validates.
+    W: `If-Match: "a,*,b"` read as ['*']."""
+    from .c09_helpers import branch_facts, node_of
+    p = run.project
+    f = p.func('falcon.request_helpers._parse_etags')
+    cfg = cfg_of(f, p)
+    run.use_cfg(cfg)
+    params = f.params()
+    if not params:
+        raise AnchorError('_parse_etags has no parameter')
+    prm = params[0]
+    asg = assignments(f)
+    parent = enclosing_map(f.node)
+
+    def ws_only(e) -> bool:
+        v = p.fold(f.module, e, None, f)
+        return isinstance(v, str) and v.strip() == ''
+
+    def whole(e, names) -> bool:
+        if isinstance(e, ast.Name):
+            return e.id in names
+        if isinstance(e, ast.Call) and isinstance(e.func, ast.Attribute) and e.func.attr in ('strip', 'lstrip', 'rstrip') \
+                and not e.keywords and all(ws_only(a) for a in e.args):
+            return whole(e.func.value, names)
+        return False
+
+    W = {prm}
+    changed = True
+    while changed:
+        changed = False
+        for nm, vals in asg.items():
+            if nm not in W and vals and all(v is not None and whole(v, W) for v in vals):
+                W.add(nm)
+                changed = True
+    for v in asg.get(prm, []):
+        if v is None or not whole(v, W):
+            raise UnknownIdiom('_parse_etags: the header parameter %s is re-bound to something other than its stripped self' % prm)
+
+    def fold(e):
+        return p.fold(f.module, e, None, f)
+
+    # locals that only ever hold the wildcard constant (`wild = '*'`) stand for it
+    star_locals = {nm for nm, vals in asg.items() if nm not in params and vals
+                   and all(v is not None and isinstance(v, (ast.Constant, ast.Name, ast.Attribute)) and fold(v) == '*' for v in vals)}
+
+    def star(e) -> bool:
+        if isinstance(e, ast.Name) and e.id in star_locals:
+            return True
+        return isinstance(e, (ast.Constant, ast.Name, ast.Attribute)) and fold(e) == '*'
+
+    def star_seq(e) -> bool:
+        if isinstance(e, (ast.Tuple, ast.List, ast.Set)):
+            return len(e.elts) > 0 and all(star(x) for x in e.elts)
+        v = fold(e)
+        return isinstance(v, (tuple, list, frozenset, set)) and len(v) > 0 and all(x == '*' for x in v)
+
+    def has_star(e) -> bool:
+        if not isinstance(e, (ast.Constant, ast.Name, ast.Attribute)):
+            return False
+        if star(e):
+            return True
+        v = fold(e)
+        return isinstance(v, (tuple, list, frozenset, set)) and any(x == '*' for x in v)
+
+    def cmp_whole(e, eq_op, in_op) -> bool:
+        if not (isinstance(e, ast.Compare) and len(e.ops) == 1):
+            return False
+        l, r, op = e.left, e.comparators[0], e.ops[0]
+        if isinstance(op, eq_op):
+            return (whole(l, W) and star(r)) or (whole(r, W) and star(l))
+        return isinstance(op, in_op) and whole(l, W) and star_seq(r)
+
+    def is_eq(e):
+        return cmp_whole(e, ast.Eq, ast.In)
+
+    def is_ne(e):
+        return cmp_whole(e, ast.NotEq, ast.NotIn)
+
+    def establishes(test, truth) -> bool:
+        return implied(test, truth, is_eq) is True or implied(test, truth, is_ne) is False
+
+    # annotations mention Literal['*']: types, not values
+    skip = set()
+    for n in ast.walk(f.node):
+        for fld in ('annotation', 'returns'):
+            a = getattr(n, fld, None)
+            if isinstance(a, ast.AST):
+                skip |= {id(x) for x in ast.walk(a)}
+    producers = []
+    n_tests = 0
+    for n in walk_no_nested(f.node):
+        if id(n) in skip or not has_star(n):
+            continue
+        if isinstance(n, ast.Name) and not isinstance(n.ctx, ast.Load):
+            continue
+        par = parent.get(id(n))
+        gp = parent.get(id(par)) if par is not None else None
+        if isinstance(par, ast.Compare) or (isinstance(par, (ast.Tuple, ast.List, ast.Set)) and isinstance(gp, ast.Compare)):
+            n_tests += 1
+            continue  # an operand of a comparison: it counts only if it is the whole-value equality (is_eq / is_ne)
+        if isinstance(par, (ast.Assign, ast.AnnAssign)) and par.value is n and all(
+                isinstance(t, ast.Name) and t.id in star_locals for t in (par.targets if isinstance(par, ast.Assign) else [par.target])):
+            continue  # naming the constant: the uses of the name are examined
+        if isinstance(par, ast.Call) and isinstance(par.func, ast.Attribute) and par.func.attr in _STR_PROBES and n in par.args:
+            n_tests += 1
+            continue  # a substring probe decides nothing by itself; what it guards is examined as a producer
+        producers.append(n)
+    if not producers:
+        raise AnchorError("_parse_etags: no place producing the wildcard answer '*' found")
+    for n in producers:
+        nid = node_of(cfg, n)
+        ok = any(establishes(test, truth) for test, truth in branch_facts(cfg, nid))
+        if not ok:
+            # conditional expression around the producer
+            child = n
+            for anc in ancestors_of(n, parent):
+                if isinstance(anc, ast.IfExp) and child is not anc.test and establishes(anc.test, child is anc.body):
+                    ok = True
+                if isinstance(anc, ast.stmt):
+                    break
+                child = anc
+        st = n
+        while not isinstance(st, ast.stmt):
+            st = parent[id(st)]
+        # name the violation by the test that lets the wildcard through (the innermost enclosing branch)
+        decider = next((a for a in ancestors_of(st, parent) if isinstance(a, (ast.If, ast.While))), None)
+        tests = [short(t.ast) for t in cfg.live_nodes() if t.kind == 'test' and any(has_star(x) or (isinstance(x, ast.Constant) and x.value == ',') for x in t.walk())]
+        run.check(ok, "_parse_etags answers the wildcard '*' only where the whole (stripped) header value equals '*' "
+                      "(',' and '*' are ordinary characters inside a quoted opaque-tag)", f,
+                  '%s  [under: %s]' % (short(st if not isinstance(st, (ast.If, ast.While, ast.For)) else n, 80),
+                                       short(decider.test, 100) if decider is not None else 'no test'),
+                  witness=["tests that mention '*' or ',': %s" % '; '.join(tests)],
+                  runtime_witness="If-Match: \"a,*,b\" (one valid strong entity-tag) is read as ['*'] -- the precondition matches anything")
+    # (b) comma cutting
+    n_cut = 0
+    for c in walk_no_nested(f.node):
+        if not isinstance(c, ast.Call):
+            continue
+        cut = False
+        if isinstance(c.func, ast.Attribute) and c.func.attr in _COMMA_CUTTERS and whole(c.func.value, W) and c.args:
+            v = p.fold(f.module, c.args[0], None, f)
+            if v is UNKNOWN:
+                raise UnknownIdiom('_parse_etags: the header value is split at a non-constant separator: %s' % short(c))
+            cut = isinstance(v, str) and ',' in v
+        else:
+            q = p.resolve_callable(f, c.func)
+            if isinstance(q, str) and q in ('re.split',) and len(c.args) >= 2 and whole(c.args[1], W):
+                v = p.fold(f.module, c.args[0], None, f)
+                if v is UNKNOWN:
+                    raise UnknownIdiom('_parse_etags: the header value is split at a non-constant pattern: %s' % short(c))
+                cut = isinstance(v, str) and ',' in v
+        if not cut:
+            continue
+        n_cut += 1
+        par = parent.get(id(c))
+        only_counted = isinstance(par, ast.Call) and isinstance(par.func, ast.Name) and par.func.id == 'len'
+        unused = isinstance(par, ast.Expr)
+        run.check(only_counted or unused,
+                  '_parse_etags finds list members only with the quote-aware entity-tag pattern; the header text is not cut at commas '
+                  '(a comma is legal inside a quoted opaque-tag)', f, c,
+                  runtime_witness='If-None-Match: "a,b" (one tag) is taken apart into the pieces \'"a\' and \'b"\'')
+    if not n_cut:
+        run.ok('_parse_etags never cuts the header text at commas (members are found by the quote-aware pattern only)', f.loc(), 'comma tokenisers: none')
+    run.extra['c09_r10'] = {'whole_value_names': sorted(W), 'wildcard_producers': len(producers), 'wildcard_tests': n_tests}
+
+
+def ancestors_of(node, parent):
+    cur = parent.get(id(node))
+    while cur is not None:
+        yield cur
+        cur = parent.get(id(cur))
+
+
+# ---------------------------------------------------------------------------
+# R11 Forwarded: every consumed pair makes its element exist
+# ---------------------------------------------------------------------------
+
+def r11_forwarded_element_present(run):
+    """RFC 7239 4: forwarded-element = [ forwarded-pair ] *( ";" [ forwarded-pair ] ),
+    forwarded-pair = token "=" value -- extension parameters are allowed, and an
+    element made only of them is still one hop.  req.forwarded is positional
+    (forwarded_host/scheme/uri/prefix read hop 0, access_route walks the hops in
+    order), so a hop that disappears shifts every later hop.
+    Decided: on every path through one iteration of the parser's loop that
+    consumes a matched pair (`name, value = <match>.groups()`), the element
+    object exists when the iteration ends: the path passes a creation
+    `<elem> = Forwarded()` or a branch outcome that says <elem> is already there.
+    W: `Forwarded: secret=k3y, for=10.0.0.1;host=internal` -> one hop instead of two."""
+    p = run.project
+    f = p.func(_FWD_PARSER)
+    cfg = cfg_of(f, p)
+    run.use_cfg(cfg)
+    parent = enclosing_map(f.node)
+    _fwd_name_vars(f)
+    unpack = [a for a in walk_self(f.node) if isinstance(a, ast.Assign) and len(a.targets) == 1 and isinstance(a.targets[0], ast.Tuple)
+              and isinstance(a.value, ast.Call) and isinstance(a.value.func, ast.Attribute) and a.value.func.attr in ('groups', 'group')]
+
+    def creates(e) -> bool:
+        if isinstance(e, ast.Call):
+            t = p.resolve_callable(f, e.func)
+            return getattr(t, 'qual', None) == 'falcon.forwarded.Forwarded'
+        return False
+
+    elem_vars = set()
+    for n in walk_self(f.node):
+        if isinstance(n, (ast.Assign, ast.AnnAssign)) and n.value is not None and any(creates(x) for x in walk_self(n.value)):
+            tg = n.targets if isinstance(n, ast.Assign) else [n.target]
+            for t in tg:
+                if isinstance(t, ast.Name):
+                    elem_vars.add(t.id)
+                else:
+                    raise UnknownIdiom('_parse_forwarded_header: a Forwarded() object is created into %s' % short(t))
+    if not elem_vars:
+        raise AnchorError('_parse_forwarded_header: no `<element> = Forwarded()` creation found')
+    if len(elem_vars) > 1:
+        raise UnknownIdiom('_parse_forwarded_header: several element variables: %s' % ', '.join(sorted(elem_vars)))
+    elem = next(iter(elem_vars))
+
+    def is_elem(e):
+        return isinstance(e, ast.Name) and e.id == elem
+
+    def creation_value(v) -> bool:
+        if creates(v):
+            return True
+        if isinstance(v, ast.BoolOp) and isinstance(v.op, ast.Or):
+            return all(is_elem(x) for x in v.values[:-1]) and creates(v.values[-1])
+        if isinstance(v, ast.IfExp):
+            # <elem> if <elem present> else Forwarded()   /   Forwarded() if <elem absent> else <elem>
+            t_body = present(v.test, True)
+            t_else = present(v.test, False)
+            if is_elem(v.body) and creates(v.orelse):
+                return t_body is True
+            if creates(v.body) and is_elem(v.orelse):
+                return t_else is True
+        return False
+
+    def truthy(e):
+        return is_elem(e)
+
+    def cmp_none(e, op):
+        return (isinstance(e, ast.Compare) and len(e.ops) == 1 and isinstance(e.ops[0], op) and is_elem(e.left)
+                and isinstance(e.comparators[0], ast.Constant) and e.comparators[0].value is None)
+
+    def present(test, truth) -> Optional[bool]:
+        """does this branch outcome say that the element object exists?"""
+        if implied(test, truth, truthy) is True or implied(test, truth, lambda e: cmp_none(e, ast.IsNot)) is True \
+                or implied(test, truth, lambda e: cmp_none(e, ast.Is)) is False:
+            return True
+        return None
+
+    creation_nodes = set()
+    for n in cfg.live_nodes():
+        if n.kind != 'stmt' or not isinstance(n.ast, (ast.Assign, ast.AnnAssign)):
+            continue
+        a = n.ast
+        tg = a.targets if isinstance(a, ast.Assign) else [a.target]
+        if not any(is_elem(x) for t in tg for x in ([t] if not isinstance(t, (ast.Tuple, ast.List)) else ast.walk(t))):
+            continue  # `<elem>.<field> = ...` writes a field; it does not bind the element variable
+        if len(tg) != 1 or not is_elem(tg[0]) or a.value is None:
+            raise UnknownIdiom('_parse_forwarded_header: %s is bound by %s' % (elem, short(a)))
+        if creation_value(a.value):
+            creation_nodes.add(n.id)
+        elif isinstance(a.value, ast.Constant) and a.value.value is None:
+            pass  # reset between elements
+        else:
+            raise UnknownIdiom('_parse_forwarded_header: %s is bound to %s (neither a fresh Forwarded() nor None)' % (elem, short(a.value)))
+    present_edges = set()
+    for t in cfg.live_nodes():
+        if t.kind != 'test':
+            continue
+        for (y, l) in cfg.succ[t.id]:
+            if l in ('T', 'F') and present(t.ast, l == 'T'):
+                present_edges.add((t.id, y, l))
+    if not unpack:
+        raise AnchorError('_parse_forwarded_header: no `name, value = <match>.groups()` unpacking')
+    for u in unpack:
+        loop = None
+        for anc in ancestors_of(u, parent):
+            if isinstance(anc, (ast.While, ast.For)):
+                loop = anc
+                break
+        if loop is None:
+            raise UnknownIdiom('_parse_forwarded_header: the pair is not consumed inside a loop')
+        body_ids = set()
+        for s_ in loop.body:
+            body_ids |= {id(x) for x in walk_self(s_)}
+        body = set()
+        for n in cfg.live_nodes():
+            key = n.ast if n.ast is not None else n.stmt
+            if key is not None and id(key) in body_ids:
+                body.add(n.id)
+        goals = {n.id for n in cfg.live_nodes() if n.id not in body and n.kind not in ('entry', 'xexit')
+                 and (n.kind == 'exit' or n.ast is not None or n.stmt is not None)}
+        heads = [n.id for n in cfg.live_nodes() if n.stmt is loop and n.kind in ('test', 'iter')]
+        if not heads:
+            raise UnknownIdiom('_parse_forwarded_header: loop head not found in the CFG')
+        starts = [y for h in heads for (y, l) in cfg.succ[h] if l in ('T', 'next') and y in body]
+        uid = [n.id for n in cfg.live_nodes() if n.ast is u and not n.copy]
+        if len(uid) != 1 or not starts:
+            raise UnknownIdiom('_parse_forwarded_header: CFG position of %s not unique' % short(u))
+        uid = uid[0]
+        # may an iteration arrive at the unpacking with no element yet?  (the first pair of an element does)
+        before = flow.reachable(cfg, starts, avoid_nodes=creation_nodes | goals, avoid_edges=present_edges, edge_filter=flow.no_exc)
+        path = None
+        if uid in before:
+            path = flow.find_path(cfg, [uid], goals, avoid_nodes=creation_nodes, avoid_edges=present_edges, edge_filter=flow.no_exc)
+        what = ('every path of one parser iteration that consumes a matched forwarded-pair (known parameter or extension) leaves the element '
+                'object created (an element made only of extension parameters is still one hop)')
+        if path is None:
+            run.ok(what, f.loc(u), u)
+        else:
+            tests = [cfg.node(x) for x in path[:-1] if cfg.node(x).kind == 'test']
+            about_elem = [t for t in tests if any(is_elem(x) for x in t.walk())]
+            bad = about_elem[-1] if about_elem else tests[-1] if tests else cfg.node(path[-2] if len(path) > 1 else path[-1])
+            run.fail('a matched forwarded-pair can end its iteration without the element object having been created: an element made only of '
+                     'such pairs yields no hop and every later hop shifts down', f, bad.ast if bad.ast is not None else bad.text(),
+                     where='%s:%s' % (f.file, bad.lineno), witness=flow.describe_path(cfg, path),
+                     runtime_witness='Forwarded: secret=k3y, for=10.0.0.1;host=internal;proto=https -> req.forwarded has 1 hop instead of 2; '
+                                     "req.forwarded_host == 'internal' and req.forwarded_scheme == 'https' are read from what is really the second hop")
+    run.extra['c09_r11'] = {'element_variable': elem, 'creation_nodes': len(creation_nodes), 'present_edges': len(present_edges)}
+
+
 def check(run):
     run.assume('E5 assumptions: str/bytes/re/dict.get methods and in-range sequence subscripts are total; unresolved '
                'external callees do not raise unless tabled; UTF-8 encoding of request-derived text is total')
@@ -1149,3 +1606,5 @@ def check(run):
     run.rule('R8', _c06.r6_access_route_tail, 'access_route: both stacks append the connecting peer under the same condition (shared with C06 R6)', floor=1)
     run.rule('R9', r9_optional_accessors_guarded, 'Optional accessors are iterated only with a fallback or behind a test', floor=1)
     run.rule('R7', r7_forwarded_case, 'Forwarded: only parameter names and the scheme are case-folded', floor=2)
+    run.rule('R10', r10_etag_wildcard, "entity-tag reader: the wildcard answer only for a whole value equal to '*'; no comma cutting of the header text", floor=2)
+    run.rule('R11', r11_forwarded_element_present, 'Forwarded: every consumed pair (known or extension parameter) leaves its element created', floor=1)
